@@ -78,6 +78,14 @@ def runJob (memo check : Bool) (j : Job V H C) (f : Name → V → V) : Outcome 
 
 def Job.fresh (ins : List (Name × V)) : Job V H C := ⟨⟨ins, none⟩, none⟩
 
+/-- A post-run check that re-hashes only the fields with `skip n = false` (NOT the code: `_hash_changes` re-hashes
+    every field, `skip = fun _ => false`).  Kept as documentation of why every field must be re-hashed: a variant
+    that exempts some class of values — say "hashable, hence immutable" — is `skip` = the fields holding such values. -/
+def runJobSkip (skip : Name → Bool) (memo check : Bool) (j : Job V H C) (f : Name → V → V) : Outcome C :=
+  let o := runJob hash combine memo check j f
+  let ch := o.changed.filter (fun n => !skip n)
+  { o with raised := check && !ch.isEmpty, changed := ch }
+
 /-- what `Submitter.__call__` does with the RuntimeError -/
 inductive Report | silent | raised | logged
 deriving DecidableEq, Repr
